@@ -91,7 +91,7 @@ func (c Case) coq() string {
 			noCode[s.N] = true
 		}
 	}
-	if c.Discard != "" || c.Kind == "lagfull" {
+	if c.Discard != "" || c.Kind == "lagfull" || c.Kind == "lagdrop" || c.Kind == "audience" {
 		return "([], [])" // judged by the oracle only (lagfull) or discarded; kept so that case numbers stay aligned
 	}
 	ops := []string{}
@@ -353,7 +353,12 @@ func runCase(k *hubkit.Kit, c *Case, res *lib.Result) []*hubkit.Peer {
 	expected := map[uint64]int{}
 	topicSeen := map[uint64]string{}
 	stalled := map[uint64]bool{}
+	degraded := false // a wait has expired in this case: later steps do not wait long again
 	waitAll := func() {
+		slack := k.Slack
+		if degraded {
+			slack = 30 * time.Millisecond
+		}
 		for _, q := range order {
 			if stalled[q.Name] || q.Refused != "" {
 				continue
@@ -362,9 +367,10 @@ func runCase(k *hubkit.Kit, c *Case, res *lib.Result) []*hubkit.Peer {
 				continue
 			}
 			want, qq := expected[q.Name], q
-			if !hubkit.WaitFor(k.Slack, func() bool { return len(tagsOf(qq)) >= want }) {
+			if !hubkit.WaitFor(slack, func() bool { return len(tagsOf(qq)) >= want }) {
 				res.Count("send:delivery-wait-expired")
 				expected[q.Name] = len(tagsOf(qq))
+				slack, degraded = 0, true // the step has had its time
 			}
 		}
 	}
@@ -431,6 +437,11 @@ func runCase(k *hubkit.Kit, c *Case, res *lib.Result) []*hubkit.Peer {
 			waitAll()
 		case "pause":
 			time.Sleep(90 * time.Millisecond)
+		case "abort":
+			if p := peers[o.N]; p != nil {
+				k.Abort(p)
+				stalled[o.N] = false
+			}
 		}
 	}
 	time.Sleep(20 * time.Millisecond) // anything delivered where the script did not expect it
@@ -453,6 +464,72 @@ func runCase(k *hubkit.Kit, c *Case, res *lib.Result) []*hubkit.Peer {
 
 // oracle: the property statement itself, on what each connection received.
 func oracle(c Case, idx int, peers []*hubkit.Peer, res *lib.Result) {
+	// at most three reports per clause and case (each carries the case for replay)
+	perClause := map[string]int{}
+	viol := func(v lib.Violation) {
+		if perClause[v.Clause]++; perClause[v.Clause] <= 3 {
+			res.Violate(v)
+		}
+	}
+	sentAt, joinedAt := map[uint64]int{}, map[uint64]int{}
+	for i, o := range c.Ops {
+		switch o.K {
+		case "send":
+			sentAt[o.ID] = i
+		case "join":
+			joinedAt[o.N] = i
+		}
+	}
+	if c.Kind == "audience" || c.Kind == "audience-small" {
+		// nobody lags, leaves or joins late: everybody must have every message of its topic from the others
+		byName := map[uint64]*hubkit.Peer{}
+		for _, p := range peers {
+			byName[p.Name] = p
+		}
+		for _, p := range peers {
+			if p.Conn == nil || p.Refused != "" {
+				continue
+			}
+			got := map[uint64]bool{}
+			for _, t := range tagsOf(p) {
+				got[t.ID] = true
+			}
+			missing, first := 0, uint64(0)
+			for _, o := range c.Ops {
+				if o.K == "send" && o.N != p.Name && o.TT == p.TokenTopic && !got[o.ID] {
+					if sp := byName[o.N]; sp != nil && sp.Refused == "" {
+						if missing++; first == 0 {
+							first = o.ID
+						}
+					}
+				}
+			}
+			if missing > 0 {
+				viol(lib.Violation{Clause: "missing", Case: idx, Key: "missing",
+					Detail: fmt.Sprintf("connection %d (topic %q, always connected, never behind) did not receive %d messages of its topic, e.g. id %d", p.Name, p.TokenTopic, missing, first), Replay: c})
+			}
+		}
+	}
+	for _, p := range peers {
+		if p.Conn != nil {
+			seenIDs := map[uint64]bool{}
+			for _, t := range tagsOf(p) {
+				if t.ID == 0 {
+					continue
+				}
+				if at, ok := sentAt[t.ID]; !ok || at < joinedAt[p.Name] {
+					// (an id this history never sent belongs to an earlier history on the same relay)
+					viol(lib.Violation{Clause: "message-from-before-join", Case: idx, Key: "message-from-before-join",
+						Detail: fmt.Sprintf("connection %d (topic %q) received message id %d (sent on topic %q by %d), which was sent before this connection joined", p.Name, p.TokenTopic, t.ID, t.Topic, t.Sender), Replay: c})
+				}
+				if seenIDs[t.ID] {
+					viol(lib.Violation{Clause: "duplicate", Case: idx, Key: "duplicate",
+						Detail: fmt.Sprintf("connection %d (topic %q) received message id %d twice", p.Name, p.TokenTopic, t.ID), Replay: c})
+				}
+				seenIDs[t.ID] = true
+			}
+		}
+	}
 	for _, p := range peers {
 		if p.Conn == nil {
 			continue
@@ -462,19 +539,19 @@ func oracle(c Case, idx int, peers []*hubkit.Peer, res *lib.Result) {
 				continue
 			}
 			if t.BadFill {
-				res.Violate(lib.Violation{Clause: "content-of-another-message", Case: idx, Key: "content-of-another-message",
+				viol(lib.Violation{Clause: "content-of-another-message", Case: idx, Key: "content-of-another-message",
 					Detail: fmt.Sprintf("connection %d (topic %q): the bytes after the header of message id %d (sender %d, topic %q) are not that message's", p.Name, p.TokenTopic, t.ID, t.Sender, t.Topic), Replay: c})
 			}
 			if t.Sender == p.Name {
-				res.Violate(lib.Violation{Clause: "echo", Case: idx, Key: "echo",
+				viol(lib.Violation{Clause: "echo", Case: idx, Key: "echo",
 					Detail: fmt.Sprintf("connection %d (topic %q) received its own message id %d", p.Name, p.TokenTopic, t.ID), Replay: c})
 			} else if t.Topic != p.TokenTopic {
-				res.Violate(lib.Violation{Clause: "cross-topic", Case: idx, Key: "cross-topic",
+				viol(lib.Violation{Clause: "cross-topic", Case: idx, Key: "cross-topic",
 					Detail: fmt.Sprintf("connection %d joined to topic %q received message id %d sent on topic %q by %d", p.Name, p.TokenTopic, t.ID, t.Topic, t.Sender), Replay: c})
 			}
 		}
 		if p.Refused != "" && p.NFrames() > 0 {
-			res.Violate(lib.Violation{Clause: "not-joined", Case: idx, Key: "not-joined",
+			viol(lib.Violation{Clause: "not-joined", Case: idx, Key: "not-joined",
 				Detail: fmt.Sprintf("connection %d was refused (%s) yet received %d frames", p.Name, p.Refused, p.NFrames()), Replay: c})
 		}
 	}
@@ -596,13 +673,140 @@ func genLagFull(r *lib.Rng) []Op {
 		}
 	}
 	ops = append(ops, Op{K: "pause"}) // anything the relay does about the full queue a little later
-	ops = append(ops, Op{K: "unstall", N: lag})
+	if r.Bool() {
+		ops = append(ops, Op{K: "unstall", N: lag})
+	} else {
+		// the dropped reader dies without ever reading again: whatever was still queued for it is gone
+		ops = append(ops, Op{K: "abort", N: lag}, Op{K: "pause"})
+	}
 	for _, x := range xs {
 		ops = append(ops, Op{K: "barrier", N: x})
 	}
 	ops = append(ops, Op{K: "sync"})
+	// epilogue: fresh connections, on a topic nobody ever sends to and on the busy one, must get
+	// nothing of what was sent before they joined
+	nextName++
+	silent := fmt.Sprintf("quiet%d", nextName)
+	for k := r.Range(1, 2); k > 0; k-- {
+		join(silent, rw, false)
+	}
+	join(tA, rw, false)
+	join(tB, []string{"read"}, false)
+	ops = append(ops, Op{K: "pause"})
 	send(xs[0], tA, 50, false)
 	ops = append(ops, Op{K: "pause"})
+	return ops
+}
+
+// genLagDrop: on the main relay (BufferSize 128): a reader stops reading while a connection of its
+// topic streams thousands of short messages (each smaller than the relay's write buffer, so its writer
+// gets stuck in the middle of a merged frame, with messages still arriving behind it); the relay drops
+// the reader for its full queue; the reader then dies without ever reading again, leaving its queue
+// as it is. Fresh connections that join afterwards (a silent topic, the same topic, another topic)
+// must receive nothing from before. Judged by the oracle only.
+func genLagDrop(r *lib.Rng) []Op {
+	perm := r.Intn(len(topics) - 1)
+	tA, tB := topics[perm], topics[perm+1]
+	rw := []string{"read", "write"}
+	var ops []Op
+	join := func(tt string, scopes []string, slow bool) uint64 {
+		nextName++
+		ops = append(ops, Op{K: "join", N: nextName, TT: tt, Path: "/session/" + tt, Scopes: scopes, Slow: slow})
+		return nextName
+	}
+	seq := 0
+	send := func(n uint64, tt string, fill int, nb bool) {
+		seq++
+		nextID++
+		ops = append(ops, Op{K: "send", N: n, TT: tt, MT: 1 + r.Intn(2), ID: nextID, Seq: seq, Fill: fill, NB: nb})
+	}
+	lag := join(tA, []string{"read"}, true)
+	var lag2 uint64
+	if r.Bool() {
+		lag2 = join(tA, rw, true)
+	}
+	x := join(tA, rw, false)
+	y := join(tB, rw, false)
+	join(tB, rw, false)
+	send(x, tA, 100, false)
+	send(y, tB, 100, false)
+	ops = append(ops, Op{K: "stall", N: lag})
+	if lag2 != 0 {
+		ops = append(ops, Op{K: "stall", N: lag2})
+	}
+	for k, n := 0, r.Range(3500, 5000); k < n; k++ {
+		send(x, tA, r.Range(1100, 1900), true)
+		if k%400 == 399 {
+			ops = append(ops, Op{K: "barrier", N: x})
+		}
+		if k%500 == 250 {
+			send(y, tB, r.Range(40, 400), true)
+		}
+	}
+	ops = append(ops, Op{K: "barrier", N: x}, Op{K: "barrier", N: y}, Op{K: "abort", N: lag})
+	if lag2 != 0 {
+		ops = append(ops, Op{K: "abort", N: lag2})
+	}
+	ops = append(ops, Op{K: "pause"}, Op{K: "sync"})
+	nextName++
+	silent := fmt.Sprintf("quiet%d", nextName)
+	for k := r.Range(1, 3); k > 0; k-- {
+		join(silent, rw, false)
+	}
+	join(tA, rw, false)
+	join(tB, rw, false)
+	ops = append(ops, Op{K: "pause"})
+	send(x, tA, 60, false)
+	send(y, tB, 60, false)
+	ops = append(ops, Op{K: "pause"})
+	return ops
+}
+
+// genAudience: n connections on ONE topic (plus three on a look-alike topic), nobody lagging, nobody
+// leaving; rounds of short bursts from rotating senders. Every connection must get every message of
+// its topic from the others exactly once, never its own, never the other topic's.
+func genAudience(r *lib.Rng, n int, total int) []Op {
+	tA := []string{"crowd", "hall/1", "a"}[r.Intn(3)]
+	tB := tA + []string{"2", "-", "/x"}[r.Intn(3)]
+	rw := []string{"read", "write"}
+	var ops []Op
+	type snd struct {
+		n  uint64
+		tt string
+	}
+	var all []snd
+	join := func(tt string) {
+		nextName++
+		ops = append(ops, Op{K: "join", N: nextName, TT: tt, Path: "/session/" + tt, Scopes: rw})
+		all = append(all, snd{nextName, tt})
+	}
+	for i := 0; i < n; i++ {
+		join(tA)
+		if i == n/2 {
+			for k := 0; k < 3; k++ {
+				join(tB)
+			}
+		}
+	}
+	seq, sent := 0, 0
+	for sent < total {
+		var round []snd
+		for k := r.Range(3, 5); k > 0; k-- {
+			round = append(round, all[r.Intn(len(all))])
+		}
+		for k := r.Range(3, 6); k > 0; k-- {
+			for _, sd := range round {
+				seq++
+				nextID++
+				sent++
+				ops = append(ops, Op{K: "send", N: sd.n, TT: sd.tt, MT: 1 + r.Intn(2), ID: nextID, Seq: seq, Fill: r.Intn(120), NB: true})
+			}
+		}
+		for _, sd := range round {
+			ops = append(ops, Op{K: "barrier", N: sd.n})
+		}
+		ops = append(ops, Op{K: "sync"})
+	}
 	return ops
 }
 
@@ -649,10 +853,14 @@ func childMain(in, out string) {
 	k := hubkit.Start(lib.RelayOpts{BufferSize: int64(io.Cap)})
 	k.Slack = time.Second
 	res := lib.NewResult("C03", 0, "child")
-	execCases(k, io.Cases, res, 0)
-	io.Violations, io.Dist = res.Violations, res.Distribution
-	rb, _ := json.Marshal(io)
-	os.WriteFile(out, rb, 0o644)
+	all := io.Cases
+	for i := range all {
+		execCases(k, all[i:i+1], res, i)
+		// written after every case: if the relay gets stuck later, what was found so far is kept
+		io.Cases, io.Violations, io.Dist = all[:i+1], res.Violations, res.Distribution
+		rb, _ := json.Marshal(io)
+		os.WriteFile(out, rb, 0o644)
+	}
 }
 
 // runChild runs cases on a relay with the given buffer size in a child process under a watchdog.
@@ -706,7 +914,7 @@ func main() {
 	if a.Replay != "" {
 		var c Case
 		lib.ReadReplayCase(a.Replay, &c)
-		if c.Kind == "lagfull" {
+		if c.Cap > 0 {
 			full[c.Cap] = []Case{c}
 		} else {
 			cases = []Case{c}
@@ -718,6 +926,21 @@ func main() {
 		}
 		for i, m := 0, a.Pick(40, 300); i < m; i++ {
 			cases = append(cases, Case{Ops: genLag(rng.Fork()), Kind: "lag"})
+		}
+		for i, m := 0, a.Pick(16, 120); i < m; i++ {
+			cases = append(cases, Case{Ops: genLagDrop(rng.Fork()), Kind: "lagdrop"})
+		}
+		// populations around the powers of two, and one well beyond 64, on one child relay
+		pops := []int{rng.Range(70, 130), 65, 33, 17, 9}
+		if a.Tier == "thorough" {
+			pops = append(pops, 129, 257, rng.Range(66, 200), 64, 5)
+		}
+		for _, n := range pops {
+			kind, total := "audience", rng.Range(200, 400)
+			if n <= 33 {
+				kind, total = "audience-small", rng.Range(60, 120)
+			}
+			full[128] = append(full[128], Case{Ops: genAudience(rng.Fork(), n, total), Kind: kind, Cap: 128})
 		}
 		for _, cp := range []int{1, 2} {
 			for i, m := 0, a.Pick(12, 60); i < m; i++ {
